@@ -689,7 +689,7 @@ pub fn report(spec: &SysSpec, hist: &[Op], order: u64, rep: &Report) {
 // ------------------------------------------------------------------ driver
 
 pub fn meta(rep: &mut Report) {
-    rep.rule = "breadth-first search over operation histories (init Zero / Random(0) / Random(1), set(input, v) for all values up to width 2 else {0,1,ones}, step, take_snapshot, restore_snapshot(id) for every id taken so far) of the real patronus::sim::Interpreter on the S1 sweep of skeletons K1,K2,K3,K5,K7 (quick: first 8 pool elements, thorough: full pools) plus hand-built swap/delay/count2/delayin; depth 6 (quick) / 7 (thorough) operations plus a closing restore probe of every snapshot; a fresh Interpreter replays every history, every sub-expression of the system is read with get after every operation and compared with a reference simulator on pvcore::tsref/eval_ref; search states are merged on (reference state values, reference input values, ordered snapshot contents). evaluations = histories executed on a fresh real Interpreter; distinct_nontrivial = distinct (system, reference key) search states in which at least one state or input value differs from the all-zero start (the simulator had to compute or store something)".into();
+    rep.rule = "breadth-first search over operation histories (init Zero / Random(0) / Random(1), set(input, v) for all values up to width 2 else {0,1,ones}, step, take_snapshot, restore_snapshot(id) for every id taken so far) of the real patronus::sim::Interpreter on the S1 sweep of skeletons K1,K2,K3,K5,K7 (quick: first 8 pool elements, thorough: full pools) plus hand-built swap/delay/count2/delayin/shadow memories and a 130-bit delay line; depth 6 (quick) / 7 (thorough) operations plus a closing restore probe of every snapshot; a fresh Interpreter replays every history, every sub-expression of the system is read with get after every operation and compared with a reference simulator on pvcore::tsref/eval_ref; search states are merged on (reference state values, reference input values, ordered snapshot contents). evaluations = histories executed on a fresh real Interpreter; distinct_nontrivial = distinct (system, reference key) search states in which at least one state or input value differs from the all-zero start (the simulator had to compute or store something)".into();
     rep.assumptions = vec![
         "every history starts with init (get/set/step before init have no values by design); set only on bit-vector inputs; init expressions read earlier states only".into(),
         "values of init-less states and of inputs after init(Random), of next-less states after step and of inputs after restore are adopted from the simulator (unspecified by the property); inputs after restore must be the pre-restore or the snapshot-time inputs".into(),
@@ -698,8 +698,27 @@ pub fn meta(rep: &mut Report) {
     ];
 }
 
+/// a 130-bit delay line: values with bits above the first word are overwritten by values that fit in one
+/// word and the other way round (init all ones, `set` of 0 / 1 / ones, step)
+fn wide_system() -> SysSpec {
+    let w = 130;
+    let s = |n: &str| T::sym(n, Ty::Bv(w));
+    SysSpec {
+        name: "wide".into(),
+        inputs: vec![("d".into(), Ty::Bv(w))],
+        states: vec![
+            StateSpec { name: "r0".into(), ty: Ty::Bv(w), init: Some(T::not(T::lit(w, 0))), next: Some(s("d")) },
+            StateSpec { name: "r1".into(), ty: Ty::Bv(w), init: Some(T::lit(w, 5)), next: Some(s("r0")) },
+        ],
+        outputs: vec![("sum".into(), T::bin(Bin::Add, s("r0"), s("r1")))],
+        bads: vec![],
+        constraints: vec![],
+    }
+}
+
 pub fn systems(tier: Tier) -> Vec<SysSpec> {
     let mut out = hand_systems(8);
+    out.push(wide_system());
     let mut seen: FxHashSet<String> = out.iter().map(spec_key).collect();
     for name in C07_SKELETONS {
         let k = skeleton_generated(name, false);
